@@ -553,6 +553,7 @@ func (g *Plugin) Reserve(ctx context.Context, state fwktype.CycleState, p *corev
 		return fwktype.NewStatus(fwktype.Error, fmt.Sprintf("quota manager not found, quota: %v, tree: %v", quotaName, treeID))
 	}
 
+	g.migrateParkedPodIfNeeded(p, quotaName, mgr)
 	mgr.ReservePod(quotaName, p)
 	return fwktype.NewStatus(fwktype.Success, "")
 }
@@ -568,6 +569,7 @@ func (g *Plugin) Unreserve(ctx context.Context, state fwktype.CycleState, p *cor
 		klog.Errorf("failed unreserve pod %v/%v, quota manager not found, quota: %v, tree: %s", p.Namespace, p.Name, quotaName, treeID)
 		return
 	}
+	g.migrateParkedPodIfNeeded(p, quotaName, mgr)
 	mgr.UnreservePod(quotaName, p)
 }
 
